@@ -417,6 +417,7 @@ type State struct {
 	Heap    map[string]*Term
 	Held    map[string]*Held
 	FreshRefs map[string]bool
+	FreshTypes map[string]*types.Named // struct type of fresh references (for object invariants)
 	Panicking bool
 	PanicVal  *Val
 	Trace   []string
@@ -460,6 +461,7 @@ func (s *State) Clone() *State {
 		GhostLets: s.GhostLets,
 		LoopEntry: s.LoopEntry,
 		FreshList: s.FreshList[:len(s.FreshList):len(s.FreshList)],
+		FreshTypes: s.FreshTypes,
 		LiveIters: s.LiveIters[:len(s.LiveIters):len(s.LiveIters)],
 	}
 	for k, v := range s.Cells {
@@ -711,6 +713,7 @@ func (s *State) ghostInt(name string) *Term {
 }
 func (s *State) setGhost(name string, t *Term)        { s.Heap["G$"+name] = t }
 
+func (s *State) closeOnly(ch *Term) *Term { return Select(s.ghostArr("closeonly", SBool), ch) }
 func (s *State) closed(ch *Term) *Term { return Select(s.ghostArr("closed", SBool), ch) }
 func (s *State) setClosed(ch *Term) {
 	s.setGhostArr("closed", Store(s.ghostArr("closed", SBool), ch, True))
@@ -766,6 +769,9 @@ func isRefType(t types.Type) bool {
 }
 
 // assumeValAllocated marks every reference leaf of v as nil-or-allocated.
+// objInvHook assumes the object invariants of a shared object whose reference was just read (set per Exec).
+var objInvHook func(s *State, v *Val)
+
 func (s *State) assumeValAllocated(v *Val) {
 	if v == nil {
 		return
@@ -773,6 +779,9 @@ func (s *State) assumeValAllocated(v *Val) {
 	if v.Term != nil && v.Fields == nil {
 		if v.T != nil && isRefType(v.T) && v.Term.Sort == SInt {
 			s.assumeAllocated(v.Term)
+			if objInvHook != nil {
+				objInvHook(s, v)
+			}
 		} else if v.T != nil && v.Term.Sort == SInt && v.Term.Kind != kLit {
 			if b, ok := v.T.Underlying().(*types.Basic); ok && b.Info()&types.IsInteger != 0 {
 				lo, hi := intRange(v.T)
